@@ -265,6 +265,9 @@ def gen_flat_trace(seed, faults):
         if not toy and r.random() < 0.06:
             # the same cell through an alias several periods of 2^32 away (addresses are taken modulo 2^32)
             a = (a % 2**32) + r.choice([-3, -2, -1, 1, 2, 3, 5, 1 << 8]) * 2**32
+        if toy and faults and r.random() < 0.06:
+            # TOY: no wrap-around of any period - addresses far outside must be rejected, not folded
+            a = (a % 4096) + r.choice([1, 2, 16, -1, -16, 1 << 16, 1 << 20]) * r.choice([4096, 65536, 2**32])
         if r.random() < 0.5:
             ops.append(["W", w, a, value(w)])
         else:
